@@ -27,6 +27,11 @@ UNITS = {
 for k in (1, 2):
   for n in (2, 3):
     UNITS['qrw%d_k%d' % (n, k)] = dict(wrapper='w_qrw.cpp', mode='lcs', unroll=k, cxxflags=QRW_CXX, ptrhooks=True, threads=thr('vp_thr_qrw', n))
+# "scoped_lock object reused": thread bodies vp_thr_*_re run two cycles on one scoped_lock object (h_reuse.c)
+UNITS['qm2_re'] = dict(wrapper='w_locks.cpp', mode='lcs', unroll=1, threads=thr('vp_thr_qm_re', 2))
+UNITS['qm3_re'] = dict(wrapper='w_locks.cpp', mode='lcs', unroll=1, threads=thr('vp_thr_qm_re', 3))
+UNITS['rw2_re'] = dict(wrapper='w_locks.cpp', mode='lcs', unroll=1, threads=thr('vp_thr_rw_re', 2))
+UNITS['qrw2_re'] = dict(wrapper='w_qrw.cpp', mode='lcs', unroll=1, cxxflags=QRW_CXX, ptrhooks=True, threads=thr('vp_thr_qrw_re', 2))
 B2 = {'threads': 2, 'free_rounds': 3, 'forced_rounds': 2}
 TSO_B = {'threads': 2, 'free_rounds': 2, 'forced_rounds': 2, 'spin_unroll': 1, 'memory_model': 'x86-TSO, per-thread FIFO store buffer of depth 2'}
 HARNESSES = [
@@ -101,7 +106,10 @@ HARNESSES += [
        desc=QRW_DESC + '; 2 threads, every wait/retry loop unrolled twice per slice',
        bounds={'threads': 2, 'free_rounds': 2, 'forced_rounds': 2, 'spin_unroll': 2}),
 ]
+def RE(a1, a2, b1, b2=7, **kw): return dict({'SA1': a1, 'SA2': a2, 'SB1': b1, 'SB2': b2}, **kw)
 DEV = [
+  dict(name='queuing_mutex_reuse_2t', unit='qm2_re', harness='h_reuse.c', defines={'LOCK': 2, 'NT': 2, 'ROUNDS': 3},
+       scenarios=[RE(a1, a2, 0) for a1 in (0, 1) for a2 in (0, 1)] + [RE(0, 0, 0, 0)], native_cflags=['-fno-sanitize=null'], timeout=900, desc='', bounds={}),
 ]
 if os.environ.get('C08_DEV'): HARNESSES += DEV
 MANIFEST = dict(
